@@ -125,14 +125,25 @@ def leaf_parameters(dic):
     return {k: v for k, v in dic.items() if isinstance(v, Parameter) and v.tensor.dtype.is_floating_point}
 
 
-def autograd(model, params):
+def autograd(model, params, refire=True):
     torch = impl.load()
-    for p in params.values():
-        p.requires_grad = True
-        p.tensor.grad = None
-    # fire change events so nothing cached without a graph is reused
-    for p in params.values():
-        p.tensor = p.tensor
+    if refire:
+        for p in params.values():
+            p.requires_grad = True
+            p.tensor.grad = None
+        # fire change events so nothing cached without a graph is reused
+        for p in params.values():
+            p.tensor = p.tensor
+    else:
+        # what Optimizer / the HMC operator / MAP do: the model has been evaluated without gradients, then
+        # gradients are switched on through the public setter and the density is evaluated — nothing else
+        for p in params.values():
+            p.requires_grad = False
+        with torch.no_grad():
+            model()
+        for p in params.values():
+            p.requires_grad = True
+            p.tensor.grad = None
     v = model()
     v.sum().backward()
     return float(v.sum().detach()), {k: (None if p.tensor.grad is None else p.tensor.grad.detach().clone().reshape(-1).tolist())
@@ -434,7 +445,7 @@ def run(tier, seed, replay=None):
         params = leaf_parameters(dic)
         for dname, model in dens.items():
             try:
-                value, grads = autograd(model, params)
+                value, grads = autograd(model, params, refire=(s % 2 == 0))
             except Exception as e:
                 k = f"C12:backward-raises:{dname.split(':')[0]}:{type(e).__name__}"
                 found.setdefault(k, (k, f"{dname}: backward raised {type(e).__name__}: {str(e)[:200]}", dict(scenario=desc)))
@@ -458,8 +469,8 @@ def run(tier, seed, replay=None):
                              sample=dict(density=dname, parameter=pname, coordinate=i, autograd=gi, finite_difference=fd,
                                          scenario={k: v for k, v in desc.items() if k not in ("tree", "seqs")}))
                     tol = max(1e-5 * max(abs(fd), abs(gi)), 50 * err, 1e-7)
-                    if abs(fd - gi) > tol:
-                        kind = "missing" if (g is None or gi == 0.0) else "wrong"
+                    if not math.isfinite(gi) or abs(fd - gi) > tol:
+                        kind = "missing" if (g is None or gi == 0.0) else ("nonfinite" if not math.isfinite(gi) else "wrong")
                         k = f"C12:{kind}-gradient:{dname.split(':')[0]}:{pname}"
                         found.setdefault(k, (k, f"{dname} w.r.t. {pname}[{i}]: back-propagated gradient {gi!r} but the numerical "
                                                 f"derivative of the returned value is {fd!r} (+-{err:.1e})",
